@@ -27,7 +27,8 @@ import numpy as np
 import mulgrids
 import t2incons
 
-TASK_TIMEOUT = 240
+CASE_TIMEOUT = 5          # seconds per generated case (each takes milliseconds)
+SHIPPED_TIMEOUT = 150     # seconds per shipped file
 PER_CATEGORY_CAP = 6
 
 
@@ -633,28 +634,43 @@ def worker(task):
     rec = Recorder()
     sample = None
     signal.signal(signal.SIGALRM, _alarm)
-    signal.alarm(TASK_TIMEOUT)
-    try:
-        with contextlib.redirect_stdout(io.StringIO()):
-            if kind == 'shipped':
-                rel, numvar, nrec = payload
+    with contextlib.redirect_stdout(io.StringIO()):
+        if kind == 'shipped':
+            rel, numvar, nrec = payload
+            signal.alarm(SHIPPED_TIMEOUT)
+            try:
                 run_shipped(rel, numvar, nrec, rec, tmpdir)
-            else:
-                lo, hi, sub = payload
-                for idx in range(lo, hi):
-                    rnd = random.Random((seed * 1000003 + idx) * 7 + {'main': 0, 'toughreact-noperm': 1, 'neg3exp': 2}[sub])
-                    spec = make_spec(rnd, idx, tier, sub)
+            except _Timeout:
+                rec.fail('timeout [shipped %s]' % rel, 'no result after %d s' % SHIPPED_TIMEOUT,
+                         {'file': 'tests/incon/' + rel, 'num_variables': numvar})
+            finally:
+                signal.alarm(0)
+        else:
+            lo, hi, sub = payload
+            ntimeouts = 0
+            for idx in range(lo, hi):
+                rnd = random.Random((seed * 1000003 + idx) * 7 + {'main': 0, 'toughreact-noperm': 1, 'neg3exp': 2}[sub])
+                spec = make_spec(rnd, idx, tier, sub)
+                signal.alarm(CASE_TIMEOUT)
+                try:
                     inc = build(spec)
                     round_trip(inc, spec['reset'], spec['num_variables'], spec_cfg(spec), rec, spec_tag(spec), tmpdir)
-                    rec.distinct.add(descriptor(spec))
-                    if sample is None and sub == 'main' and idx % 97 == 0 and spec['blocks']:
-                        s = spec_cfg(spec)
-                        s['first_block'] = spec['blocks'][0]
-                        sample = s
-    except _Timeout:
-        rec.fail('timeout %s %r' % (kind, payload), 'no result after %d s' % TASK_TIMEOUT, {'task': [kind, payload]})
-    finally:
-        signal.alarm(0)
+                except _Timeout:
+                    ntimeouts += 1
+                    c = spec_cfg(spec)
+                    c['blocks'] = spec['blocks'][:3]
+                    rec.fail('timeout ' + spec_tag(spec), 'write/read/write does not return within %d s' % CASE_TIMEOUT, c)
+                finally:
+                    signal.alarm(0)
+                rec.distinct.add(descriptor(spec))
+                if sample is None and sub == 'main' and idx % 97 == 0 and spec['blocks']:
+                    s = spec_cfg(spec)
+                    s['first_block'] = spec['blocks'][0]
+                    sample = s
+                if ntimeouts >= 2:       # keep the harness inside its budget when the code under test hangs
+                    rec.fail('timeout-abort [cases %d..%d %s]' % (idx + 1, hi - 1, sub),
+                             'two cases of this batch timed out; the rest of the batch was not run', {'batch': [lo, hi, sub]})
+                    break
     return dict(rec.ev), rec.fails, rec.distinct, sample
 
 
